@@ -16,7 +16,30 @@ NAME_CLASSES = ['plain', 'space', 'newline', 'percent', 'odd', 'dash',
                 'allbytes']
 
 
-def _rand_bytes_name(rng, n):
+def _rand_bytes_name(rng, n, valid_utf8=None):
+    """n random units: raw bytes 1-255 (usually not valid UTF-8), or - when
+    valid_utf8 - code points drawn from all of ASCII 1-127, Latin-1, BMP and
+    astral ranges (every byte value 0x80-0xF4 still occurs in the encoding)"""
+    if valid_utf8 is None:
+        valid_utf8 = rng.random() < 0.7
+    if valid_utf8:
+        out = []
+        for _ in range(n):
+            r = rng.random()
+            if r < 0.55:
+                c = rng.randrange(1, 128)
+            elif r < 0.75:
+                c = rng.randrange(0x80, 0x800)
+            elif r < 0.93:
+                c = rng.randrange(0x800, 0x10000)
+                if 0xd800 <= c < 0xe000:
+                    c = 0x4e2d
+            else:
+                c = rng.randrange(0x10000, 0x110000)
+            if c == 0x2f:
+                c = 0x5f
+            out.append(chr(c))
+        return ''.join(out)
     out = []
     for _ in range(n):
         c = rng.randrange(1, 256)
